@@ -35,6 +35,24 @@ func main() {
 		cmdVC(os.Args[2:])
 	case "check":
 		os.Exit(cmdCheck(os.Args[2:]))
+	case "lemma":
+		P := mustLoad()
+		dir, _ := os.MkdirTemp("", "pikevc-lemma")
+		defer os.RemoveAll(dir)
+		for _, n := range os.Args[2:] {
+			a, q, err := proveLemma(P, n, dir, 20, true)
+			if err != nil {
+				fmt.Println("ERROR", err)
+				continue
+			}
+			fmt.Printf("lemma %-30s %-8s %-14s %.2fs (%d bytes)\n", n, a.Result, a.Solver, a.Secs, len(q))
+			if a.Result != "unsat" {
+				fmt.Println(truncate(a.Output, 1500))
+			}
+			if os.Getenv("PIKEVC_DUMP") != "" {
+				_ = os.WriteFile(filepath.Join(os.Getenv("PIKEVC_DUMP"), "lemma_"+n+".smt2"), []byte(q), 0o644)
+			}
+		}
 	case "pin":
 		os.Exit(cmdPin(os.Args[2:]))
 	case "selftest":
